@@ -6,6 +6,7 @@ Oracle for graceful shutdown (C36); harness: harness/cmd/shutdown.
 case args: workers=<n> tt=<ns> sd=<ns> p=<ns> bto=<ns> mb=<n> nd=<n> keep=<bits>
 ops:  span <dt> <t> <sid> <root> <peer> <dest>   (ext: owner = <w>)
       hold <w> | tick <ns> | fwd | ev <sid> <dest> | txtick <ns> | stop | txstop | gor | agent
+agent cases (kind=agent script=<o|O|p|P|f joined by '.', or ->): agnew | agadd | agtick | agsent | agstop
 obs:  see harness/cmd/shutdown/main.go; every obs of a model op ends with
       h=<sid[!p|!b],…|-> u=<d<dest>:<sid.sid…>,…|->
 -/
@@ -23,6 +24,8 @@ structure OSt where
   c : Cfg := {}
   keep : List Bool := []
   s : St := {}
+  script : List SendOut := []     -- agent cases: the scripted OpAMP client
+  u : Option USt := none          -- the usage loop of the agent under test
 
 def keepFn (bits : List Bool) (t : Nat) : Bool := (bits[t]?).getD true
 
@@ -82,6 +85,34 @@ def ownerOf (exts : List (List String)) : Option Nat :=
 
 def b01 (s : String) : Option Bool := if s == "1" then some true else if s == "0" then some false else none
 
+def ulocStr : ULoc → String
+  | .idle => "idle" | .waitPending => "pending" | .waitSent => "sent" | .exited => "gone"
+
+def hcAfterStop : String :=
+  match hcRun variantAgent [.done] with
+  | .exited => "gone"
+  | .running => "spinning"
+
+def b10 (b : Bool) : String := if b then "1" else "0"
+
+/-- an environment event on the agent, then the usage loop runs until it blocks (not cancelled: at
+most one case of each select is ready, the choice does not matter) -/
+def agentOp (o : OSt) (f : USt → USt) : OSt × Option String :=
+  match o.u with
+  | none => (o, some "bad-op")
+  | some u =>
+    if u.cancelled then (o, some s!"loc={ulocStr u.loc}")
+    else
+      let u' := urun (List.replicate 8 true) (f u)
+      ({ o with u := some u' },
+       some s!"loc={ulocStr u'.loc} calls={u'.calls} tick={b10 u'.tick} data={b10 u'.cur}{b10 u'.last}")
+
+def parseScript (s : String) : List SendOut :=
+  if s == "-" then [] else (s.splitOn ".").filterMap fun t =>
+    if t == "o" then some (.ok false) else if t == "O" then some (.ok true)
+    else if t == "p" then some (.pend false) else if t == "P" then some (.pend true)
+    else if t == "f" then some .fail else none
+
 def oStep (o : OSt) (op : List String) (exts : List (List String)) : OSt × Option String :=
   let keep := keepFn o.keep
   let run (m : Op) (pre : St → St → Out → String) : OSt × Option String :=
@@ -135,11 +166,17 @@ def oStep (o : OSt) (op : List String) (exts : List (List String)) : OSt × Opti
       let pend : Int := if s'.tx.locked then -1 else ((s'.tx.pending.map (·.2.2.length)).foldl (· + ·) 0 : Nat)
       s!"pend={pend} fl=0"
   | ["gor"] => (o, some "*")
-  | ["agent"] =>
-    let hc := match hcRun variantAgent [.done] with
-      | .exited => "gone"
-      | .running => "spinning"
-    (o, some s!"hc={hc} usage=gone")
+  | ["agnew"] => ({ o with u := some { script := o.script } }, some "ok")
+  | ["agadd"] => agentOp o fun u => u.added
+  | ["agtick"] => agentOp o fun u => u.ticked
+  | ["agsent"] => agentOp o fun u => u.sent
+  | ["agstop"] =>
+    match o.u with
+    | none => (o, some "bad-op")
+    | some u =>
+      let u' := urun (List.replicate 6 true) u.stop
+      ({ o with u := some u' }, some s!"hc={hcAfterStop} usage={ulocStr u'.loc}")
+  | ["agent"] => (o, some s!"hc={hcAfterStop} usage=gone")
   | _ => (o, some "bad-op")
 
 /-! ## Monitor: the property's conclusion on the implementation's own observations -/
@@ -195,6 +232,15 @@ def monTail (m : Mon) (toks : List String) : Mon × List Fail :=
           else ({ m with ups := id :: m.ups }, fs)) (m, fs)
     | _ => (m, fs)) (m, [])
   (m, f1 ++ f2)
+
+/-- after `Agent.Stop` (bounded wait) every background loop of the agent must be gone -/
+def agentFails (toks : List String) : List Fail :=
+  let hc := (kv toks "hc").getD "gone"
+  let us := (kv toks "usage").getD "gone"
+  let f1 := if hc == "spinning" then [mkFail "agent-healthcheck-spins-after-cancel" "after Agent.Stop the healthCheck goroutine keeps running: its select takes the closed ctx.Done() case and loops"]
+    else if hc != "gone" then [mkFail "agent-goroutine-left-after-stop:healthcheck" s!"after Agent.Stop the healthCheck goroutine is still there ({hc})"] else []
+  let f2 := if us != "gone" then [mkFail "agent-goroutine-left-after-stop:usage" s!"after Agent.Stop reportUsagePeriodically is still there, blocked in state '{us}' (idle = its own select, pending = waiting for a pending custom message, sent = waiting for the send to complete)"] else []
+  f1 ++ f2
 
 def shMon (m : Mon) (op : List String) (_ : List (List String)) (obs : Option String) : Mon × List Fail :=
   match obs with
@@ -259,13 +305,8 @@ def shMon (m : Mon) (op : List String) (_ : List (List String)) (obs : Option St
       if m.cstopped && m.tstopped && left != "-" then
         (m, [mkFail "goroutines-left-after-stop" s!"goroutines created by {left} are still there after both Stops"])
       else (m, [])
-    | ["agent"] =>
-      let hc := (kv toks "hc").getD "gone"
-      let us := (kv toks "usage").getD "gone"
-      let f1 := if hc == "spinning" then [mkFail "agent-healthcheck-spins-after-cancel" "after Agent.Stop the healthCheck goroutine keeps running: its select takes the closed ctx.Done() case, which has an empty body, and loops"]
-        else if hc != "gone" then [mkFail "agent-healthcheck-left" s!"after Agent.Stop the healthCheck goroutine is {hc}"] else []
-      let f2 := if us != "gone" then [mkFail "agent-usage-loop-left" s!"after Agent.Stop the usage loop is {us}"] else []
-      (m, f1 ++ f2)
+    | ["agent"] => (m, agentFails toks)
+    | ["agstop"] => (m, agentFails toks)
     | _ => (m, ft)
 
 def comp : Component OSt Mon where
@@ -273,7 +314,7 @@ def comp : Component OSt Mon where
     let nat (k : String) : Nat := ((kv args k).getD "0").toNat?.getD 0
     let bits := ((kv args "keep").getD "").toList.map (· != '0')
     { c := { nw := nat "workers", tt := nat "tt", sd := nat "sd", bto := nat "bto", mb := nat "mb", fixed := variant },
-      keep := bits }
+      keep := bits, script := parseScript ((kv args "script").getD "-") }
   step := oStep
   minit := fun args => { keep := ((kv args "keep").getD "").toList.map (· != '0') }
   mon := shMon
